@@ -114,9 +114,11 @@ def gather_anchors(box, anchors, links, bookmarks, forms, parent_matrix=None,
         if is_input:
             forms[parent_form].append((box.element, box.style, rectangle))
         if has_bookmark:
-            if matrix:
-                pos_x, pos_y = matrix.transform_point(pos_x, pos_y)
-            bookmark = (bookmark_level, bookmark_label, (pos_x, pos_y), state)
+            bookmark_x, bookmark_y = (
+                matrix.transform_point(pos_x, pos_y) if matrix
+                else (pos_x, pos_y))
+            bookmark = (
+                bookmark_level, bookmark_label, (bookmark_x, bookmark_y), state)
             bookmarks.append(bookmark)
         if has_anchor:
             pos_x1, pos_y1, pos_x2, pos_y2 = pos_x, pos_y, pos_x + width, pos_y + height
